@@ -56,9 +56,9 @@ def apply(mut, root):
             raise RuntimeError("%s: old text occurs %d times in %s" % (mut["id"], text.count(mut["old"]), mut["file"]))
         text = text.replace(mut["old"], mut["new"])
         if mut["id"] == "c02-tomo-sorted-list":
-            old2 = "        circuit: QuantumCircuit = preparation_circuit.compose(readout_circuit, qubits=measured_qubits)  # type: ignore\n        circuit.measure_all()\n        if circuit.metadata is None:\n            circuit.metadata = {}\n        circuit.metadata[\"readout info\"] = ReadoutInfo(readout_circuit, preparation_circuit.num_qubits, measured_qubits)\n        circuits.append(circuit)"
-            assert text.count(old2) == 1
-            text = text.replace(old2, old2.replace("qubits=measured_qubits)", "qubits=compose_onto)"))
+            parts = text.split("qubits=measured_qubits)  # type: ignore")
+            assert len(parts) == 3, len(parts)
+            text = parts[0] + "qubits=measured_qubits)  # type: ignore" + parts[1] + "qubits=compose_onto)  # type: ignore" + parts[2]
         if mut["id"] == "c13-graph-cached":
             text = text.replace("def get_connectivity_graph(", "_all_cache = {}\n\n\ndef get_connectivity_graph(", 1)
     open(path, "w").write(text)
